@@ -184,6 +184,9 @@ func (cat *Catalog) BuildKnowledgeBase() (*KnowledgeBase, error) {
 					return nil, err
 				}
 				dLen := binary.LittleEndian.Uint64(length)
+				if dLen > uint64(buffer.Len()) {
+					return nil, fmt.Errorf("string constant %s claims %d bytes but holds %d", amet.AstID, dLen, buffer.Len())
+				}
 				byteArr := make([]byte, dLen)
 				_, err = buffer.Read(byteArr)
 				if err != nil {
@@ -765,14 +768,15 @@ func (cat *Catalog) ReadCatalogFromReader(reader io.Reader) error {
 
 			return err
 		}
-		content := make([]string, incount)
+		// the count is not trusted with the allocation: the list grows as its elements arrive
+		content := make([]string, 0)
 		for subIndex := uint64(0); subIndex < incount; subIndex++ {
 			str, err := ReadStringFromReader(reader)
 			if err != nil {
 
 				return err
 			}
-			content[subIndex] = str
+			content = append(content, str)
 		}
 		cat.MemoryExpressionVariableMap[key] = content
 	}
@@ -796,14 +800,15 @@ func (cat *Catalog) ReadCatalogFromReader(reader io.Reader) error {
 
 			return err
 		}
-		content := make([]string, incount)
+		// the count is not trusted with the allocation: the list grows as its elements arrive
+		content := make([]string, 0)
 		for subIndex := uint64(0); subIndex < incount; subIndex++ {
 			str, err := ReadStringFromReader(reader)
 			if err != nil {
 
 				return err
 			}
-			content[subIndex] = str
+			content = append(content, str)
 		}
 		cat.MemoryExpressionAtomVariableMap[key] = content
 	}
@@ -1197,14 +1202,15 @@ func (meta *ArgumentListMeta) ReadMetaFrom(reader io.Reader) error {
 		return err
 	}
 
-	meta.ArgumentASTIDs = make([]string, integer)
+	// the count is not trusted with the allocation: the list grows as its elements arrive
+	meta.ArgumentASTIDs = make([]string, 0)
 	for index := uint64(0); index < integer; index++ {
 		s, err := ReadStringFromReader(reader)
 		if err != nil {
 
 			return err
 		}
-		meta.ArgumentASTIDs[index] = s
+		meta.ArgumentASTIDs = append(meta.ArgumentASTIDs, s)
 	}
 
 	return nil
@@ -1549,15 +1555,10 @@ func (meta *ConstantMeta) ReadMetaFrom(reader io.Reader) error {
 
 		return err
 	}
-	byteArr := make([]byte, length)
-	readCount, err := io.ReadFull(reader, byteArr)
+	byteArr, err := readBytesFromReader(reader, length)
 	if err != nil {
 
 		return err
-	}
-	if uint64(readCount) != length {
-
-		return io.ErrShortBuffer
 	}
 	meta.ValueBytes = byteArr
 
@@ -2261,14 +2262,15 @@ func (meta *ThenExpressionListMeta) ReadMetaFrom(reader io.Reader) error {
 		return err
 	}
 
-	meta.ThenExpressionIDs = make([]string, count)
+	// the count is not trusted with the allocation: the list grows as its elements arrive
+	meta.ThenExpressionIDs = make([]string, 0)
 	for index := uint64(0); index < count; index++ {
 		s, err := ReadStringFromReader(reader)
 		if err != nil {
 
 			return err
 		}
-		meta.ThenExpressionIDs[index] = s
+		meta.ThenExpressionIDs = append(meta.ThenExpressionIDs, s)
 	}
 
 	return nil
@@ -2556,8 +2558,32 @@ func WriteStringToWriter(writer io.Writer, s string) error {
 	return err
 }
 
-// readChunkSize is the largest piece of a string body that is allocated before it has been read.
+// readChunkSize is the largest piece of a length-prefixed body that is allocated before it has been read.
 const readChunkSize = 4096
+
+// readBytesFromReader reads exactly length bytes from reader.
+// The length usually comes from a prefix in the stream and is not trusted with the allocation: the body is
+// read in chunks, so a corrupted prefix costs at most one chunk before the reader runs dry.
+func readBytesFromReader(reader io.Reader, length uint64) ([]byte, error) {
+	data := make([]byte, 0)
+	for remaining := length; remaining > 0; {
+		n := remaining
+		if n > readChunkSize {
+			n = readChunkSize
+		}
+		chunk := make([]byte, int(n))
+		counter, err := io.ReadFull(reader, chunk)
+		TotalRead += uint64(counter)
+		if err != nil {
+
+			return nil, err
+		}
+		data = append(data, chunk...)
+		remaining -= n
+	}
+
+	return data, nil
+}
 
 // ReadStringFromReader read a string from reader.
 func ReadStringFromReader(reader io.Reader) (string, error) {
@@ -2569,24 +2595,10 @@ func ReadStringFromReader(reader io.Reader) (string, error) {
 
 		return "", err
 	}
-	strLen := binary.LittleEndian.Uint64(length)
-	// The length prefix is not trusted with the allocation: the body is read in chunks, so a corrupted
-	// prefix costs at most one chunk before the reader runs dry.
-	strByte := make([]byte, 0)
-	for remaining := strLen; remaining > 0; {
-		n := remaining
-		if n > readChunkSize {
-			n = readChunkSize
-		}
-		chunk := make([]byte, int(n))
-		counter, err = io.ReadFull(reader, chunk)
-		TotalRead += uint64(counter)
-		if err != nil {
+	strByte, err := readBytesFromReader(reader, binary.LittleEndian.Uint64(length))
+	if err != nil {
 
-			return "", err
-		}
-		strByte = append(strByte, chunk...)
-		remaining -= n
+		return "", err
 	}
 	ReadCount++
 
